@@ -64,6 +64,20 @@ def run(tier):
                 if th >= 4 and r.integers(0, 3) == 0:
                     extra["concurrent"] = 3
                 tasks.append(case(r, nd, n, th, **extra))
+    # heavier items: with a few hundred nodes per item the iterations finish before they can overlap; a scratch
+    # array shared between iterations (e.g. a pool indexed modulo the thread count) only shows when many threads
+    # are busy at once and the list is longer than the number of threads
+    for nd, sh in ((3, (14, 14, 14)), (2, (60, 60))):
+        for th, n in ((16, 35), (8, 19)) if q else ((16, 35), (16, 17), (8, 19), (4, 11)):
+            t = case(r, nd, n, th, repeat=3)
+            v = np.exp(r.normal(0, 0.4, sh))
+            d = (1.0,) * nd
+            srcs = [[float(r.uniform(0.05, 0.95)) * sh[a] for a in range(nd)] for _ in range(n)]
+            t.update(grid=v, gridsize=d, origin=(0.0,) * nd, sources=srcs,
+                     points=[[float(r.uniform(0, 1)) * sh[a] for a in range(nd)] for _ in range(5)],
+                     ray_points=[[float(r.uniform(0.1, 0.9)) * sh[a] for a in range(nd)] for _ in range(2)])
+            t["meta"] = dict(t["meta"], shape=sh, medium="lognormal", nsrc=n, heavy=True)
+            tasks.append(t)
     res = C.run_impl(tasks, "jit", timeout=6000)
     _eval(ck, tasks, res, "jit", "omp")
     if not q:
